@@ -395,43 +395,6 @@ Proof.
   - destruct (eof0 s c0); injection Hx as <-; [apply Hkeep, samele_refl|apply Hkeep, samele_mv; lia].
 Qed.
 
-Lemma html_template_rawtext_converse_proof : forall c d l ty tk l', cfg_ok c -> tb c <> [] -> html_inv d l ->
-  intag l = false -> rawtag l <> 0 ->
-  lpos (lz l) < len d -> ~ end_tag_at (rawtag l) (d ++ [0]) (lpos (lz l)) ->        (* the content is not empty *)
-  next c l = Ok (ty, tk, l') -> lhas l' = true ->
-  exists p q, lpos (lz l) <= p /\ q <= lpos (lz l') /\ is_region c d p q.
-Proof.
-  intros c d l ty tk l' Hc Htb Hi Hit Hraw Hne Hnoend Hn Hhas.
-  pose proof Hi as (Hl & Hlen & Hsuf & _). pose proof Hl as [Hw _].
-  pose proof (lwf_clean l Hl Hit) as Hcl.
-  assert (H0 : 0 <= lpos (lz l)) by (destruct Hw as (_ & ? & _); lia).
-  unfold next in Hn. cbn [lz rawtag intag lerr ltext lattr lhas] in Hn. rewrite Hit in Hn.
-  replace (negb (rawtag l =? 0)) with true in Hn by (symmetry; apply negb_true_iff; apply Z.eqb_neq; exact Hraw).
-  unfold shift_rawtext in Hn.
-  destruct (rawtag l =? html_hash_Plaintext) eqn:Epl.
-  - exfalso. destruct (safe_inv _ _ (plaintext_loop_spec _ Hw)) as (zp & Ez & Ha). rewrite Ez in Hn. cbn [rbind] in Hn.
-    pose proof (plaintext_loop_run _ _ _ Ez) as Hend. apply at_end_true in Hend; [|eauto using adv_wf].
-    rewrite (adv_len _ _ Ha), Hlen in Hend.
-    rewrite shiftv_spec in Hn by eauto using adv_wf. cbn [rbind fst snd] in Hn.
-    destruct Ha as (A1 & A2 & A3). cbn [sn] in Hn.
-    replace (0 <? lpos zp - lstart zp) with true in Hn by (symmetry; apply Z.ltb_lt; lia).
-    injection Hn as <- <- <-. cbn [lhas] in Hhas. discriminate.
-  - destruct (safe_inv _ _ (rawtext_loop_spec c (rawtag l) (lz l) false Hc Hw)) as (s & Es & Ha). rewrite Es in Hn. cbn [rbind] in Hn.
-    destruct (rawtext_loop_run _ _ _ _ _ _ Es) as (_ & _ & Hend & _).
-    rewrite shiftv_spec in Hn by eauto using adv_wf. cbn [rbind fst snd] in Hn.
-    pose proof Ha as (A1 & A2 & A3). rewrite Hlen in A3.
-    assert (Hlt : lpos (lz l) < lpos (fst s)).
-    { destruct (Z.eq_dec (lpos (fst s)) (lpos (lz l))) as [E|E]; [exfalso|lia].
-      destruct Hend as [Hend|Hend].
-      - apply at_end_true in Hend; [|eauto using adv_wf]. rewrite (adv_len _ _ Ha), Hlen in Hend. lia.
-      - apply Hnoend. rewrite <- E.
-        assert (Hblen : len (lbuf (lz l)) = len (d ++ [0])).
-        { pose proof (lx_wf_len _ Hw) as [Hbl _]. rewrite len_app. change (len [0]) with 1. lia. }
-        eapply (end_tag_at_ext true _ _ _ (lpos (lz l))); eauto. lia. }
-    cbn [sn] in Hn. replace (0 <? lpos (fst s) - lstart (fst s)) with true in Hn by (symmetry; apply Z.ltb_lt; lia).
-    injection Hn as <- <- <-. cbn [lhas lz skip lpos] in *.
-    exact (rawtext_loop_regions c (rawtag l) d l _ s Hc Htb Hi Es Hhas).
-Qed.
 
 (* non-vacuity: <style>a{{x}}b{{y}}c</style> with the Go delimiters: the second region is reached over "a", a region, "b" *)
 Example html_template_rawtext_reach_nonvacuous :
@@ -637,6 +600,54 @@ Proof.
 Qed.
 
 End AttrConverse.
+
+Lemma plaintext_step_samele (s : lx) x : plaintext_body s = Ok x -> match x with Cont s' => samele s s' | Brk r => samele s r end.
+Proof.
+  intros Hx. unfold plaintext_body in Hx. destruct (pkr s 0) as [c0| |]; cbn [rbind] in Hx; try discriminate.
+  destruct (eof0 s c0); injection Hx as <-; [apply samele_refl|apply samele_mv; lia].
+Qed.
+
+Lemma html_template_rawtext_converse_proof : forall c d l ty tk l', cfg_ok c -> tb c <> [] -> html_inv d l ->
+  intag l = false -> rawtag l <> 0 ->
+  lpos (lz l) < len d -> ~ end_tag_at (rawtag l) (d ++ [0]) (lpos (lz l)) ->        (* the content is not empty *)
+  next c l = Ok (ty, tk, l') -> lhas l' = true ->
+  exists p q, lpos (lz l) <= p /\ q <= lpos (lz l') /\ is_region c d p q.
+Proof.
+  intros c d l ty tk l' Hc Htb Hi Hit Hraw Hne Hnoend Hn Hhas.
+  pose proof Hi as (Hl & Hlen & Hsuf & _). pose proof Hl as [Hw _].
+  pose proof (lwf_clean l Hl Hit) as Hcl.
+  assert (H0 : 0 <= lpos (lz l)) by (destruct Hw as (_ & ? & _); lia).
+  unfold next in Hn. cbn [lz rawtag intag lerr ltext lattr lhas] in Hn. rewrite Hit in Hn.
+  replace (negb (rawtag l =? 0)) with true in Hn by (symmetry; apply negb_true_iff; apply Z.eqb_neq; exact Hraw).
+  unfold shift_rawtext in Hn.
+  destruct (rawtag l =? html_hash_Plaintext) eqn:Epl.
+  - destruct (safe_inv _ _ (plaintext_loop_spec c (lz l) false Hc Hw)) as ([zp hp] & Ez & Ha). rewrite Ez in Hn. cbn [rbind fst snd] in Hn, Ha.
+    pose proof (plaintext_loop_run _ _ _ _ _ Ez) as Hend. cbn [fst] in Hend. apply at_end_true in Hend; [|eauto using adv_wf].
+    rewrite (adv_len _ _ Ha), Hlen in Hend.
+    unfold with_tmpl_lx in Ez.
+    pose proof (with_tmpl_RI c d l Hc Htb (binv_of_inv d l Hi) (fun z : lx => z) (fun _ z' => z') (fun z : lx => z) plaintext_body _ (lz l) false (zp, hp)
+                  (fun _ _ => eq_refl) plaintext_step_samele (conj (samele_refl _) (fun E => False_ind _ (Bool.diff_false_true E))) Ez) as [_ Hreg].
+    rewrite shiftv_spec in Hn by eauto using adv_wf. cbn [rbind fst snd] in Hn, Hreg.
+    destruct Ha as (A1 & A2 & A3). cbn [sn] in Hn.
+    replace (0 <? lpos zp - lstart zp) with true in Hn by (symmetry; apply Z.ltb_lt; lia).
+    injection Hn as <- <- <-. cbn [lhas lz skip lpos] in *. exact (Hreg Hhas).
+  - destruct (safe_inv _ _ (rawtext_loop_spec c (rawtag l) (lz l) false Hc Hw)) as (s & Es & Ha). rewrite Es in Hn. cbn [rbind] in Hn.
+    destruct (rawtext_loop_run _ _ _ _ _ _ Es) as (_ & _ & Hend & _).
+    rewrite shiftv_spec in Hn by eauto using adv_wf. cbn [rbind fst snd] in Hn.
+    pose proof Ha as (A1 & A2 & A3). rewrite Hlen in A3.
+    assert (Hlt : lpos (lz l) < lpos (fst s)).
+    { destruct (Z.eq_dec (lpos (fst s)) (lpos (lz l))) as [E|E]; [exfalso|lia].
+      destruct Hend as [Hend|Hend].
+      - apply at_end_true in Hend; [|eauto using adv_wf]. rewrite (adv_len _ _ Ha), Hlen in Hend. lia.
+      - apply Hnoend. rewrite <- E.
+        assert (Hblen : len (lbuf (lz l)) = len (d ++ [0])).
+        { pose proof (lx_wf_len _ Hw) as [Hbl _]. rewrite len_app. change (len [0]) with 1. lia. }
+        eapply (end_tag_at_ext true _ _ _ (lpos (lz l))); eauto. lia. }
+    cbn [sn] in Hn. replace (0 <? lpos (fst s) - lstart (fst s)) with true in Hn by (symmetry; apply Z.ltb_lt; lia).
+    injection Hn as <- <- <-. cbn [lhas lz skip lpos] in *.
+    exact (rawtext_loop_regions c (rawtag l) d l _ s Hc Htb Hi Es Hhas).
+Qed.
+
 
 Lemma html_template_attr_converse_proof : forall c d l v l', cfg_ok c -> tb c <> [] -> html_inv d l -> intag l = true ->
   next c l = Ok (AttributeT, Some v, l') -> lhas l' = true ->
